@@ -29,6 +29,11 @@ type Op struct {
 type Case struct {
 	Sinks int  `json:"sinks"` // 0: plain TUDPTransport; 1..3: TMultiUDPTransport with that many destinations
 	Ops   []Op `json:"ops"`
+	// Pre: before the transport under test is created, ANOTHER transport of the same flavour (to a
+	// destination of its own) is created, these many bytes are written to it in turn (a message being
+	// assembled, possibly with a refused write in it) and it is closed without Flush. Transports are
+	// independent objects: nothing of that may show up in the transport under test.
+	Pre []int `json:"pre,omitempty"`
 }
 
 func sizeGen() *rapid.Generator[int] {
@@ -71,6 +76,9 @@ func gen(t *rapid.T) Case {
 		}
 	}
 	c.Ops = append(c.Ops, Op{K: "write", N: 5, B: 1}, Op{K: "flush"})
+	if rapid.IntRange(0, 2).Draw(t, "pre?") == 0 {
+		c.Pre = rapid.SliceOfN(sizeGen(), 1, 3).Draw(t, "pre")
+	}
 	return c
 }
 
@@ -110,6 +118,27 @@ func run(c Case) (pbt.Outcome, error) {
 		defer s.Close()
 		sinks = append(sinks, s)
 		addrs = append(addrs, s.Addr)
+	}
+	if len(c.Pre) > 0 {
+		ps, err := udpsink.New()
+		if err != nil {
+			return out, fmt.Errorf("harness: cannot open sink: %v", err)
+		}
+		defer ps.Close()
+		var pt thrift.TTransport
+		if c.Sinks == 0 {
+			pt, err = thriftudp.NewTUDPClientTransport(ps.Addr, "")
+		} else {
+			pt, err = thriftudp.NewTMultiUDPClientTransport([]string{ps.Addr}, "")
+		}
+		if err != nil {
+			return out, fmt.Errorf("harness: %v", err)
+		}
+		for i, n := range c.Pre {
+			_, _ = pt.Write(payload(n, byte(0xA0+i)))
+		}
+		_ = pt.Close()
+		out.Classes = append(out.Classes, "predecessor-closed-mid-message")
 	}
 	var tr thrift.TTransport
 	var single *thriftudp.TUDPTransport
